@@ -13,6 +13,7 @@ import (
 	"go/token"
 	"go/types"
 	"math/big"
+	"reflect"
 	"regexp"
 	"sort"
 	"strings"
@@ -309,6 +310,7 @@ func checkC13(p *Prog, r *Report) {
 	c04Transform(p, r, "C13.weather-normalisation")
 	c13OptionalColumns(p, r)
 	c13OptionalValues(p, r)
+	yamlKeysRule(p, r, "C13.yaml-keys", []string{"CropParam", "CropDevelopmentStage"})
 }
 
 func short(k string) string { return strings.TrimPrefix(k, "hermes.") }
@@ -1042,5 +1044,49 @@ func c13OptionalValues(p *Prog, r *Report) {
 			})
 			r.Ob("horizon-advance:"+short(key), p.Pos(fi.Decl.Pos()), okAdv, det+" (must be exactly 'another horizon follows': otherwise every horizon is read from the first line, or the line after the profile is consumed)")
 		}
+	}
+}
+
+// yamlKeysRule — a YAML key that is the NAME OF ANOTHER FIELD of the same
+// struct is a mix-up whatever the intention: the value written under that
+// name in every existing file lands in the wrong field (contradiction rule,
+// no table needed).  Also: no two fields share a key, no field is skipped.
+func yamlKeysRule(p *Prog, r *Report, rule string, structs []string) {
+	r.Rule(rule, "YAML keys of the crop-parameter structures: no field carries the name of another field of the same structure as its key, keys are unique and not '-'", len(structs))
+	for _, sn := range structs {
+		obj := p.Hermes.Types.Scope().Lookup(sn)
+		if obj == nil {
+			r.Ob("keys:"+sn, "-", false, "type not found")
+			continue
+		}
+		st, ok := obj.Type().Underlying().(*types.Struct)
+		if !ok {
+			continue
+		}
+		names := map[string]bool{}
+		for i := 0; i < st.NumFields(); i++ {
+			names[st.Field(i).Name()] = true
+		}
+		seen := map[string]string{}
+		bad := ""
+		for i := 0; i < st.NumFields(); i++ {
+			f := st.Field(i)
+			key := strings.Split(reflect.StructTag(st.Tag(i)).Get("yaml"), ",")[0]
+			if key == "" {
+				key = strings.ToLower(f.Name())
+			}
+			if key == "-" {
+				bad += f.Name() + " is not read from the file; "
+				continue
+			}
+			if key != f.Name() && names[key] {
+				bad += fmt.Sprintf("field %s is filled from key %q, the name of another field; ", f.Name(), key)
+			}
+			if prev, dup := seen[key]; dup {
+				bad += fmt.Sprintf("fields %s and %s share key %q; ", prev, f.Name(), key)
+			}
+			seen[key] = f.Name()
+		}
+		r.Ob("keys:"+sn, p.Pos(obj.Pos()), bad == "", fmt.Sprintf("%d fields of %s: %s", st.NumFields(), sn, orStr(bad, "every key is the field's own name or a name no field has")))
 	}
 }
